@@ -9,6 +9,7 @@ mod acl;
 mod addr;
 mod httpcodec;
 mod httpnet;
+mod rawbytes;
 mod httpstore;
 mod store;
 mod timeunit;
@@ -16,8 +17,27 @@ mod udpcodec;
 mod udpnet;
 mod udpstats;
 mod validator;
+mod wsclient;
 mod wsjson;
 mod wsstore;
+
+/// counting allocator: bytes requested so far (C12 measures the growth during a parser call)
+struct Counting;
+static ALLOCATED: std::sync::atomic::AtomicUsize = std::sync::atomic::AtomicUsize::new(0);
+unsafe impl std::alloc::GlobalAlloc for Counting {
+    unsafe fn alloc(&self, l: std::alloc::Layout) -> *mut u8 {
+        ALLOCATED.fetch_add(l.size(), std::sync::atomic::Ordering::Relaxed);
+        std::alloc::System.alloc(l)
+    }
+    unsafe fn dealloc(&self, p: *mut u8, l: std::alloc::Layout) { std::alloc::System.dealloc(p, l) }
+    unsafe fn realloc(&self, p: *mut u8, l: std::alloc::Layout, n: usize) -> *mut u8 {
+        ALLOCATED.fetch_add(n.saturating_sub(l.size()), std::sync::atomic::Ordering::Relaxed);
+        std::alloc::System.realloc(p, l, n)
+    }
+}
+#[global_allocator]
+static GLOBAL: Counting = Counting;
+pub fn allocated() -> usize { ALLOCATED.load(std::sync::atomic::Ordering::Relaxed) }
 
 fn arg<T: std::str::FromStr>(args: &[String], name: &str, default: T) -> T {
     args.iter()
@@ -46,6 +66,28 @@ fn main() {
         serve::run(args.get(2).map(|s| s.as_str()).unwrap_or(""), &args[3.min(args.len())..]);
         return;
     }
+    if family == "rawbytes-child" {
+        let g = |i: usize| args.get(i).and_then(|v| v.parse::<u64>().ok()).unwrap_or(0);
+        rawbytes::child(g(2), g(3) as usize, g(4) as usize, args.get(5).map(|s| s.as_str()).unwrap_or(""));
+        return;
+    }
+    if family == "rawbytes-one" {
+        let text = std::fs::read_to_string(args.get(2).map(|s| s.as_str()).unwrap_or("")).unwrap_or_default();
+        let t: Vec<&str> = text.split_whitespace().collect();
+        if let ["rb", target, a, h] = t.as_slice() {
+            let (target, a, h) = (target.to_string(), a.parse().unwrap_or(0), h.to_string());
+            let t = std::thread::Builder::new().stack_size(2 << 20).spawn(move || {
+                let out = std::io::stdout();
+                rawbytes::exec(&mut out.lock(), &target, a, &if h == "-" { vec![] } else { store::unhex(&h) });
+            }).unwrap();
+            let _ = t.join();
+        }
+        return;
+    }
+    if family == "wsprobe" {
+        wsclient::probe(args.get(2).and_then(|v| v.parse().ok()).unwrap_or(1000));
+        return;
+    }
     if family == "exportchild" {
         udpstats::child(args.get(2).map(|s| s.as_str()).unwrap_or(""), args.get(3).and_then(|v| v.parse().ok()).unwrap_or(0), args.get(4).map(|s| s.as_str()).unwrap_or(""));
         return;
@@ -60,6 +102,7 @@ fn main() {
         "udpstore" => store::run(&mut out, seed, cases, maxops, &replay, false),
         "udpnet" => udpnet::run(&mut out, seed, cases, &replay, arg(&args, "--uring-resp-buf", 2048)),
         "udpstats" => udpstats::run(&mut out, seed, cases, maxops, &replay),
+        "rawbytes" => rawbytes::run(&mut out, seed, cases, &replay),
         "udpcodec" => udpcodec::run(&mut out, seed, cases, &replay),
         "wsjson" => wsjson::run(&mut out, seed, cases, &replay),
         "wsstore" => wsstore::run(&mut out, seed, cases, maxops, &replay),
